@@ -178,6 +178,20 @@ class History(object):
             return Failure("%s: directives changed to %r" % (what, snap["directives"]), sig={"kind": "directives"})
         if snap["dialect"] != self.init["dialect"] or list(self.db.dialect.items()) != list(self.init["dialect"].items()):
             return Failure("%s: dialect changed" % what, sig={"kind": "dialect"})
+        # look-ups, distinct values through the same (long-lived) handle
+        for fid, mm in self.m.store.items():
+            f = self.db[fid]
+            cols = [f.seqid, f.source, f.featuretype, f.start, f.end, f.score, f.strand, f.frame]
+            attrs = dict((k, list(v)) for k, v in f.attributes.items())
+            same = (dict((k, sorted(v)) for k, v in attrs.items()) == dict((k, sorted(v)) for k, v in mm["attrs"].items())) if mm["merged"] \
+                else attrs == mm["attrs"]
+            if cols != mm["cols"] or not same:
+                return Failure("%s: db[%r] returns %r / %r, stored is %r / %r" % (what, fid, cols, attrs, mm["cols"], mm["attrs"]),
+                               sig={"kind": "lookup-stale"})
+        if sorted(self.db.featuretypes()) != sorted(set(mm["cols"][2] for mm in self.m.store.values())):
+            return Failure("%s: featuretypes() = %r" % (what, sorted(self.db.featuretypes())), sig={"kind": "distinct-stale"})
+        if sorted(self.db.seqids()) != sorted(set(mm["cols"][0] for mm in self.m.store.values())):
+            return Failure("%s: seqids() = %r" % (what, sorted(self.db.seqids())), sig={"kind": "distinct-stale"})
         n_total = self.db.count_features_of_type()
         if n_total != len(self.m.store):
             return Failure("%s: count_features_of_type() = %r, %d features stored" % (what, n_total, len(self.m.store)), sig={"kind": "count"})
@@ -347,7 +361,10 @@ class History(object):
             return None
         raised = None
         try:
-            self.db.update(data, make_backup=op["backup"], merge_strategy=strategy, **self.F["kw"])
+            ukw = dict(self.F["kw"])
+            if op.get("checklines") is not None:
+                ukw["checklines"] = op["checklines"]
+            self.db.update(data, make_backup=op["backup"], merge_strategy=strategy, **ukw)
         except Faulty as e:
             raised = e
         except ValueError as e:
@@ -479,9 +496,10 @@ class MachineLeg(_Base):
 
             @rule(recs=st.lists(st.integers(0, len(POOL) - 1), min_size=1, max_size=4),
                   strategy=st.sampled_from(STRATEGIES + ["merge", "create_unique", "warning", "replace", "merge", "create_unique"]),
-                  form=st.sampled_from(["list", "generator", "path"]), backup=st.booleans())
-            def update(self, recs, strategy, form, backup):
-                self._do({"op": "update", "recs": recs, "strategy": strategy, "form": form, "backup": backup})
+                  form=st.sampled_from(["list", "generator", "path"]), backup=st.booleans(),
+                  checklines=st.sampled_from([None, None, 0, 1, 10]))
+            def update(self, recs, strategy, form, backup, checklines):
+                self._do({"op": "update", "recs": recs, "strategy": strategy, "form": form, "backup": backup, "checklines": checklines})
 
             @rule(which=st.lists(st.integers(0, 20), min_size=1, max_size=2), how=st.sampled_from(["id", "id", "feature", "missing", "relation-only"]),
                   backup=st.booleans())
@@ -540,7 +558,7 @@ class MachineLeg(_Base):
 
 
 ALPHABET = [
-    {"op": "update", "recs": [3], "strategy": "merge", "form": "list", "backup": False},
+    {"op": "update", "recs": [3], "strategy": "merge", "form": "list", "backup": False, "checklines": 0},
     {"op": "update", "recs": [4, 5], "strategy": "create_unique", "form": "generator", "backup": True},
     {"op": "update", "recs": [10, 14, 7], "strategy": "warning", "form": "path", "backup": False},
     {"op": "update", "recs": [5, 13], "strategy": "error", "form": "list", "backup": False},
